@@ -637,8 +637,8 @@ async def connect_via(path, *, host, port, addr, known_hosts, alias, algs, cb_ke
                         if not data:
                             break
                         out = end.on_data(data)
-                except (ConnectionError, OSError):
-                    pass
+                except (ConnectionError, OSError, asyncio.CancelledError):
+                    pass                                    # the run is over: nothing left to serve
                 finally:
                     writer.close()
             srv = await asyncio.start_server(handle, '127.0.0.1', 0)
